@@ -115,6 +115,7 @@ func (poc *PolicySorter) OnUpdate(update api.Update) (dirty bool) {
 				poc.sortedTiers.Delete(oldKey)
 				tierInfo.Valid = false
 				tierInfo.Order = nil
+				tierInfo.DefaultAction = ""
 				if len(tierInfo.Policies) == 0 {
 					delete(poc.tiers, tierName)
 				} else {
